@@ -3,6 +3,7 @@ import Naga.Driver.C18
 import Naga.Driver.C16
 import Naga.Driver.C08
 import Naga.Driver.C19
+import Naga.Driver.Sem
 
 /-! Line-protocol driver: `nagadrv <cmd> [args]`, one input line ↦ one output line. -/
 
@@ -11,6 +12,7 @@ partial def loop (h : IO.FS.Stream) (out : IO.FS.Stream) (f : String → String)
   if line.isEmpty then return ()
   let line := if line.endsWith "\n" then (line.dropEnd 1).toString else line
   out.putStrLn (f line)
+  out.flush
   loop h out f
 
 def main (args : List String) : IO UInt32 := do
@@ -22,4 +24,5 @@ def main (args : List String) : IO UInt32 := do
   | ["c16"] => loop stdin stdout Naga.Driver.C16.handle; return 0
   | ["c08"] => loop stdin stdout Naga.Driver.C08.handle; return 0
   | ["c19"] => loop stdin stdout Naga.Driver.C19.handle; return 0
+  | ["sem"] => loop stdin stdout Naga.Driver.Sem.handle; return 0
   | _ => IO.eprintln s!"nagadrv: unknown command {args}"; return 2
